@@ -12,12 +12,28 @@ import (
 type Mutex struct{ mu sync.Mutex }
 
 func (m *Mutex) Lock() {
+	if vsched.IsFine() {
+		for {
+			vsched.Yield("lock")
+			if m.mu.TryLock() {
+				vsched.Result("ok")
+				return
+			}
+			vsched.Result("busy")
+		}
+	}
 	vsched.Yield("lock")
 	m.mu.Lock()
 	vsched.NoYieldEnter()
 }
 
 func (m *Mutex) Unlock() {
+	if vsched.IsFine() {
+		vsched.Yield("unlock")
+		m.mu.Unlock()
+		vsched.Result("")
+		return
+	}
 	vsched.NoYieldExit()
 	m.mu.Unlock()
 	vsched.Result("")
